@@ -166,5 +166,9 @@ def build(S):
 def post(S):
     from bounded import gridrun
 
+    from bounded import gridbank as gb
+
     cfgs = (gridrun.quick_set() if S.tier == "quick" else gridrun.thorough_set()) + [pair[1] for pair in gridrun.worker_copy_pairs(S.tier)[:2]]
+    # a mesh regridded after construction (redistributePoints): its points must be back on their flux surfaces too
+    cfgs.append(gb.cfg("cdn", dict(orthogonal=False), fpol="profile", pressure=True, regrid=dict(nonorthogonal_xpoint_poloidal_spacing_length=0.04, nonorthogonal_target_all_poloidal_spacing_length=0.5), label="cdn-nonorth-regridded"))
     gridrun.run(S, ["psi_on_flux_surface", "psi_vs_analytic"], "hypnotoad.core.mesh:MeshRegion.fillRZ", cfgs=cfgs, name="psi residual at every grid point of generated grids (incl. non-orthogonal grids generated with the data flow of worker processes)")
